@@ -7,7 +7,8 @@ From HbsLms Require Import Base.Bytes Model.Consts Model.Winternitz Model.Lmots 
      Model.KeyBlob Model.Hss Model.SignCore.
 From HbsLms Require Import Spec.Rfc8554Ots Spec.Rfc8554 Spec.HashSigs Spec.HssSpec Spec.RfcKat.
 From HbsLms Require Import Proofs.WinternitzDom Proofs.RfcCore Proofs.HashSigsProofs Proofs.HssRfc
-     Proofs.KeyBlobProofs Gen.Generated.
+     Proofs.KeyBlobProofs Proofs.SignProofs Proofs.RfcVerifyEquiv Gen.Generated.
+From HbsLms Require Properties.C01.
 
 Local Open Scope N_scope.
 
@@ -97,6 +98,36 @@ Proof.
   destruct (cb _); [|discriminate]. intros [= <- _]. exists k, ps. repeat split; (reflexivity || assumption).
 Qed.
 
+(* obligation on the tables of the current source: type ids are the codes they are listed under,
+   digit indices fit u16, heights fit the 32-bit leaf index; decided by computation *)
+Lemma source_tables_ok : forallb (tables_ok K_src) hash_sizes = true.
+Proof. vm_compute. reflexivity. Qed.
+
+Lemma tables_ok_n n : In n hash_sizes -> tables_ok K_src n = true.
+Proof. intros Hn. pose proof source_tables_ok as S. rewrite forallb_forall in S. now apply S. Qed.
+
+
+(* "An independent implementation of RFC 8554 verification therefore accepts every released
+   signature": the transcription of RFC 8554 section 6.3 (Spec/Rfc8554.v), run with the parameter
+   rows of the current source, returns VALID on whatever key generation and the signing entry
+   point hand out, at every counter value.  (C02 shows which of those rows are the RFC's.) *)
+Theorem C07_rfc_verifier_accepts_released_signatures :
+  forall (n : nat) (H : bytes -> bytes),
+    In n hash_sizes -> (forall x, length (H x) = n) ->
+    forall (ps : list param) (seed sk pk : bytes) (c : N) (msg : bytes)
+           (cb : bytes -> bool) (sig : bytes) (calls : list (bytes * bool)),
+      Forall (fun p => In p (tbl_params K_src n)) ps -> length seed = n ->
+      keygen K_src n H ps seed = Ok (sk, pk) ->
+      c < 256 ^ N.of_nat (c_used_leafs_size K_src) ->
+      sign_core K_src n H (with_counter K_src sk c) msg cb = (Ok sig, calls) ->
+      hss_verify_rfc n H (ots_tbl_of K_src n) (lms_tbl_of K_src)
+                     (N.of_nat (c_max_levels K_src)) msg sig pk = true.
+Proof.
+  intros n H Hn HL ps seed sk pk c msg cb sig calls F Ls KG Hc SG.
+  apply (hss_verify_iff_rfc K_src n H HL source_consts_rfc (tables_ok_n n Hn) msg sig pk).
+  exact (C01.C01_released_signature_verifies n H Hn HL ps seed sk pk c msg cb sig calls F Ls KG Hc SG).
+Qed.
+
 (* the RFC's own test vectors: accepted by the independent transcription and by the model *)
 Theorem C07_rfc_vectors :
   rfc_verify rfc_testcase1_message rfc_testcase1_signature rfc_testcase1_public_key = true
@@ -109,3 +140,4 @@ Print Assumptions C07_lmots_public_key_is_alg1.
 Print Assumptions C07_lmots_signature_is_alg3.
 Print Assumptions C07_signature_is_rfc8554.
 Print Assumptions C07_sign_core_releases_it.
+Print Assumptions C07_rfc_verifier_accepts_released_signatures.
